@@ -19,6 +19,9 @@ import tempfile
 import time
 
 from gv.engine import pool as P
+from gv.engine.choice import EngineError
+
+EngineErrorTypes = (EngineError,)
 
 _ST = {}
 
@@ -175,6 +178,11 @@ def replay_isolated(run_history, h, tag, kind):
             tempfile.tempdir = d
             r = run_history(h, d, tag)
             q.put(any(x["kind"] == kind for x in r["violations"]))
+        except EngineErrorTypes:
+            q.put(False)
+        except Exception:
+            # an exception escaping the history is what the search records as 'harness-exception'
+            q.put(kind == "harness-exception")
         except BaseException:
             q.put(False)
         finally:
